@@ -3,9 +3,11 @@
    together with what it hands over to: DefaultXMLParser.parse/_parse10 (transport/parser.py) after the switch
    to DOM parsing and SAXParserHandler.callback (switch back), as a state machine over READS.
 
-     if session._base == BASE_11: return DefaultXMLParser.parse(self, data)   [fix of finding C11-sax-base11: chunked
-                                                                     streams are DOM parsed, model Framing11.v of C01;
-                                                                     everything below is the base:1.0 branch]
+     if session._base == BASE_11: return DefaultXMLParser.parse(self, data)   [chunked streams are de-chunked by
+                                                                     _parse11 (model Framing11.v of C01) and each complete
+                                                                     message is filtered by _dispatch11: the base:1.1
+                                                                     branch is Model/JunosParse11.v; everything below is
+                                                                     the base:1.0 branch]
      data = self._held + data; self._held = b''
      msg, delim, remaining = data.partition(MSG_DELIM)              [find_sub delim10]
      if not delim: hold back the longest end of msg that begins a delimiter   [holdback: n = 5 .. 1]
